@@ -168,6 +168,58 @@ func (g *Gen) Noise() string {
 	return g.pick([]string{"", "# comment", "   # indented comment", " ", "Z", "#+a.example.com,1.2.3.4"})
 }
 
+// white space the line reader must NOT remove at the end of a line (it removes nothing there) nor,
+// blanks excepted, at its start: single bytes and UTF-8 sequences (NBSP, NEL, EM SPACE, IDEOGRAPHIC SPACE)
+var wsTails = []string{" ", "\t", "\v", "\f", "\x85", "\xa0", "\xc2\xa0", "\xc2\x85", "\xe2\x80\x83", "\xe3\x80\x80",
+	"  ", " \t", "\t ", " \r", "\r ", "\r\r"}
+
+// WsTailLine returns a well formed line whose last field ends with white space: text and generic
+// payloads, and numeric last fields (TTL, weight, location) that the codec then cannot parse and
+// replaces by their defaults.
+func (g *Gen) WsTailLine() string {
+	ws := g.pick(wsTails)
+	n := g.plainName()
+	switch g.R.Intn(7) {
+	case 0:
+		return "'" + n + ",ends with white space" + ws
+	case 1:
+		return ":" + n + ",99,abc" + ws
+	case 2:
+		return "+" + n + "," + g.ip4() + ",300" + ws
+	case 3:
+		return "+" + n + "," + g.ip4() + ",300,,ab" + ws
+	case 4:
+		return "C" + n + ",target." + g.zone() + ws
+	case 5:
+		return "+" + n + "," + g.ip4() + ",300,,,7" + ws
+	default:
+		return "'" + n + "," + ws
+	}
+}
+
+// WsLeadLine returns a line the reader must hand to the codec although a white-space aware trim
+// would make it valid, empty or a comment: other white space than blanks in front of a record or of
+// a '#', or at least two bytes of white space only.  The codec rejects every one of them.
+func (g *Gen) WsLeadLine() string {
+	lead := g.pick([]string{"\t", "\v", "\f", "\r", "\xc2\xa0", " \t", "\t ", "  \t"})
+	switch g.R.Intn(5) {
+	case 0, 1:
+		return lead + g.Line()
+	case 2:
+		return lead + "# comment"
+	case 3:
+		return lead + g.pick([]string{"\t", " \t", "\v", "\xc2\xa0"})
+	default:
+		return lead + "+" + g.plainName() + "," + g.ip4()
+	}
+}
+
+// WsSkipLine returns a white-space line the reader skips (after the blanks are gone it is shorter than
+// two bytes).
+func (g *Gen) WsSkipLine() string {
+	return g.pick([]string{" ", "\t", " \t", "\r", "  \r", "\v", "    ", "  \xa0", "\f\r"})
+}
+
 // BadLine returns a line the codec rejects with an error (never a panic).
 func (g *Gen) BadLine() string {
 	return g.pick([]string{
